@@ -156,6 +156,10 @@ def check_pair(ctx, kp, inc, exc, k, do_match=True):
         ctx.violation('valid', f'valid(include={inc}, exclude={exc}) [{f1}/{f2}] raised {type(e).__name__}: {e}',
                       {'include': inc, 'exclude': exc, 'forms': [f1, f2]})
         return
+    if isinstance(res, set) and k % 3 == 0:
+        # the result belongs to the caller: emptying it must not show in any later answer (shared module-level sets)
+        ctx.mon('results_emptied_by_the_caller')
+        res.clear()
     if got != exp:
         ctx.violation('valid', f'valid(include={inc}, exclude={exc}) [{f1}/{f2}]: got-expected={sorted(got - exp)} '
                       f'expected-got={sorted(exp - got)}', {'include': inc, 'exclude': exc, 'forms': [f1, f2]})
